@@ -717,25 +717,28 @@ fn infer_schema_from_updates(updates: &[Update]) -> TupleSchema {
             // length: keep the fixed dimension only if every vector of the column has it,
             // otherwise use a variable-length list (a fixed-size list built from vectors
             // of other lengths is not a valid Arrow array, and the batch could never be
-            // written - not even by the startup flush of the WAL).
+            // written - not even by the startup flush of the WAL). A zero dimension is
+            // never fixed: a fixed-size list of width 0 cannot tell how many rows it has.
             let dt = match v.data_type() {
                 DataType::Vector { dim: Some(d) }
-                    if !updates.iter().all(|u| {
-                        u.data
-                            .get(i)
-                            .and_then(|x| x.as_vector())
-                            .is_none_or(|x| x.len() == d)
-                    }) =>
+                    if d == 0
+                        || !updates.iter().all(|u| {
+                            u.data
+                                .get(i)
+                                .and_then(|x| x.as_vector())
+                                .is_none_or(|x| x.len() == d)
+                        }) =>
                 {
                     DataType::vector_any()
                 }
                 DataType::VectorInt8 { dim: Some(d) }
-                    if !updates.iter().all(|u| {
-                        u.data
-                            .get(i)
-                            .and_then(|x| x.as_vector_int8())
-                            .is_none_or(|x| x.len() == d)
-                    }) =>
+                    if d == 0
+                        || !updates.iter().all(|u| {
+                            u.data
+                                .get(i)
+                                .and_then(|x| x.as_vector_int8())
+                                .is_none_or(|x| x.len() == d)
+                        }) =>
                 {
                     DataType::vector_int8_any()
                 }
@@ -998,6 +1001,13 @@ mod tests {
 
         let read = persist.read("db:emb", 0).unwrap();
         assert_eq!(read, updates);
+
+        // a batch holding only an empty vector
+        let only_empty = vec![Update::insert(v(vec![]), 4)];
+        persist.ensure_shard("db:emb0").unwrap();
+        persist.append("db:emb0", &only_empty).unwrap();
+        persist.flush("db:emb0").unwrap();
+        assert_eq!(persist.read("db:emb0", 0).unwrap(), only_empty);
     }
 
     #[test]
